@@ -36,14 +36,24 @@ def known_findings():
 # ----------------------------------------------------------------------------- lean side
 
 def property_theorems(pid):
-    p = os.path.join(LEAN, "CatVerif/Properties/%s.lean" % pid)
-    if not os.path.exists(p):
-        return []
-    src = open(p).read()
-    # strip comments
-    src = re.sub(r"/-.*?-/", "", src, flags=re.S)
-    src = re.sub(r"--.*", "", src)
-    return re.findall(r"^theorem\s+([A-Za-z0-9_.']+)", src, flags=re.M)
+    out = []
+    # Properties/Cxx.lean: the property's theorems; Properties/Tie/Cxx.lean: its tie to the source (generated definitions = model's)
+    for p in (os.path.join(LEAN, "CatVerif/Properties/%s.lean" % pid), os.path.join(LEAN, "CatVerif/Properties/Tie/%s.lean" % pid)):
+        if not os.path.exists(p):
+            continue
+        src = open(p).read()
+        # strip comments
+        src = re.sub(r"/-.*?-/", "", src, flags=re.S)
+        src = re.sub(r"--.*", "", src)
+        out += re.findall(r"^theorem\s+([A-Za-z0-9_.']+)", src, flags=re.M)
+    return out
+
+
+def property_modules(pid):
+    mods = ["CatVerif.Properties.%s" % pid]
+    if os.path.exists(os.path.join(LEAN, "CatVerif/Properties/Tie/%s.lean" % pid)):
+        mods.append("CatVerif.Properties.Tie.%s" % pid)
+    return mods
 
 
 FORBIDDEN = re.compile(r"\b(sorry|admit|native_decide|bv_decide|implemented_by|unsafe)\b|^\s*axiom\s|maxHeartbeats\s+0")
@@ -72,7 +82,7 @@ def audit_axioms(pid, thms):
     os.makedirs(lib.CACHE, exist_ok=True)
     f = os.path.join(lib.CACHE, "audit_%s_%d.lean" % (pid, os.getpid()))
     with open(f, "w") as fh:
-        fh.write("import CatVerif.Properties.%s\nopen Cat\n" % pid)
+        fh.write("".join("import %s\n" % m for m in property_modules(pid)) + "open Cat\n")
         for t in thms:
             fh.write("#print axioms %s\n" % t)
     p = lib.sh(["lake", "env", "lean", f], cwd=LEAN)
@@ -142,10 +152,15 @@ def lean_side(pid, tier):
         ok2, _ = lib.lake_build(("catdrv",))
         res["driver_ok"] = ok2
         # does this property's own module still build?
-        ok3, out3 = lib.lake_build(("CatVerif.Properties.%s" % pid,)) if res["thms"] else (True, "")
+        ok3, out3 = lib.lake_build(tuple(property_modules(pid))) if res["thms"] else (True, "")
         res["prop_build_ok"] = ok3
         if ok3:
-            res["problems"] = []   # other properties' proofs are broken, not this one's
+            # other properties' proofs are broken, not this one's (what the translator reported for this property stays)
+            res["problems"] = [p for p in res["problems"] if not p.startswith("lake build failed")]
+        else:
+            mine = re.findall(r"^- (\S+)", out3, flags=re.M)
+            res["problems"] = [p for p in res["problems"] if not p.startswith("lake build failed")] + \
+                ["lake build failed: " + ", ".join(mine or failed)]
     else:
         res["driver_ok"] = True
         res["prop_build_ok"] = True
@@ -157,10 +172,11 @@ def lean_side(pid, tier):
         res["discharged"] = okt
         res["problems"] += probs
         if tier == "thorough" and res["thms"]:
-            p = lib.sh(["lake", "env", "leanchecker", "CatVerif.Properties.%s" % pid], cwd=LEAN)
-            res["leanchecker"] = p.returncode
-            if p.returncode != 0:
-                res["problems"].append("leanchecker rejected CatVerif.Properties.%s: %s" % (pid, (p.stdout + p.stderr)[-300:]))
+            for mod in property_modules(pid):
+                p = lib.sh(["lake", "env", "leanchecker", mod], cwd=LEAN)
+                res["leanchecker"] = max(res.get("leanchecker", 0), p.returncode)
+                if p.returncode != 0:
+                    res["problems"].append("leanchecker rejected %s: %s" % (mod, (p.stdout + p.stderr)[-300:]))
     res["ok"] = res.get("prop_build_ok", False) and not res["problems"]
     return res
 
@@ -496,7 +512,7 @@ def main():
         "coverage": {
             "obligations": max(1, len(ls["thms"])), "discharged": len(ls["discharged"]) if ls["thms"] else 0,
             "theorems": ls["thms"], "theorems_checked": ls["discharged"],
-            "checker_cmd": "cd lean && lake build CatVerif catdrv && lake env lean <#print axioms of every theorem in CatVerif/Properties/%s.lean>%s" % (pid, " && lake env leanchecker CatVerif.Properties.%s" % pid if tier == "thorough" else ""),
+            "checker_cmd": "cd lean && lake build CatVerif catdrv && lake env lean <#print axioms of every theorem in CatVerif/Properties/%s.lean and CatVerif/Properties/Tie/%s.lean>%s" % (pid, pid, " && lake env leanchecker CatVerif.Properties.%s (and .Tie.%s)" % (pid, pid) if tier == "thorough" else ""),
             "trusted_base": TRUSTED,
             "translator": ls.get("translator"),
             "evaluations": len(scns), "distinct_nontrivial": distinct,
